@@ -1446,6 +1446,16 @@ def tr_block(stmts, env, ctx):
         if not ty.startswith("rec:") or ty[4:] not in CTORS:
             raise Untranslatable("deepcopy of " + ty)
         return tr_block(rest, bind_mutable(env, s.targets[0].id, term, ty[4:]), ctx)
+    if (isinstance(s, (ast.Assign, ast.AnnAssign)) and isinstance(s.value, ast.Dict) and not s.value.keys
+            and isinstance(s.targets[0] if isinstance(s, ast.Assign) and len(s.targets) == 1 else getattr(s, "target", None), ast.Name)):
+        # d = {} / d: Dict[..] = {}: a local dict of lists, accumulated by the statements that follow (tr_dict_block)
+        d = (s.targets[0] if isinstance(s, ast.Assign) else s.target).id
+        if (ctx.get("inloop") or ctx.get("inline") or "<deps>" not in env or d in env or "<mut>" in env
+                or any(isinstance(k, str) and (k.startswith(d + ".") or k.startswith(d + "[")) for k in env)):
+            raise Untranslatable("dict accumulator " + d)
+        env2 = dict(env)
+        env2[d] = ("([] : ndict)", "ndict")
+        return tr_dict_block(rest, env2, ctx, d, True)
     st = attr_store(s, env) if isinstance(s, (ast.Assign, ast.AugAssign)) else None
     if st is not None and isinstance(st[2], ast.DictComp):
         # g._deme_map = {d.name: d for d in g.demes}: the name index rebuilt from the demes' current value.  The model
@@ -1551,6 +1561,74 @@ def tr_block(stmts, env, ctx):
     if isinstance(s, ast.For) and not s.orelse:
         return tr_for(s, rest, env, ctx)
     raise Untranslatable("statement " + type(s).__name__ + ": " + ast.unparse(s)[:60])
+
+
+# ---- accumulation into a local dict of lists ---------------------------------------------------------------------------
+# After `d = {}` (d: Dict[str, List[str]]) the rest of the function may only be, at any depth of `for` loops over
+# list-typed attributes / parameters:  `d.setdefault(k, [])` as a statement (the model's `setdefault k d`; the default is
+# a fresh list at every call, so no two keys share a list),  `d[k].append(x)` (dict_append k x d of Proofs/FunSites.v: KeyError
+# when k is absent, else the model's append_to),  `if x.attr is not None:` without else where the model types the
+# attribute as a plain list (NEVER_NONE),  and at top level `return d`.  k and x are non-raising string expressions that
+# do not read d.  d is the state: each loop is a left fold in the error monad (foldM) threading it, the loop body ends
+# in `Ok <current d>`.  d can be neither read, aliased, passed nor rebound (its type "ndict" is accepted nowhere in tr).
+# TRUSTED TYPING (like TYPE_TESTS): attributes that the classes declare Optional-free lists and the model types as lists;
+# `x.attr is not None` on them is `true` (the else-less branch for None has no counterpart in the model).
+NEVER_NONE = {("rec:deme", "ancestors")}
+
+
+def tr_dict_block(stmts, env, ctx, d, top):
+    cur = env[d][0]
+
+    def with_state(e, term):
+        e = dict(e)
+        e[d] = (term, "ndict")
+        return e
+
+    def pure_str(e):
+        binds, term, ty, _ = lift(e, env, ctx["counter"])
+        if binds or ty != "str":
+            raise Untranslatable("dict key / element %s (of type %s, or raising)" % (ast.unparse(e)[:40], ty))
+        return term
+    if not stmts:
+        if top:
+            raise Untranslatable("a function with a dict accumulator must end in `return %s`" % d)
+        return "Ok %s" % cur
+    s, rest = stmts[0], stmts[1:]
+    if isinstance(s, ast.Return):
+        if not top or rest or not (isinstance(s.value, ast.Name) and s.value.id == d):
+            raise Untranslatable("return other than a final `return %s`" % d)
+        ctx["types"].add("ndict")
+        return "Ok %s" % cur
+    call = s.value if isinstance(s, ast.Expr) and isinstance(s.value, ast.Call) and isinstance(s.value.func, ast.Attribute) else None
+    if (call is not None and call.func.attr == "setdefault" and isinstance(call.func.value, ast.Name) and call.func.value.id == d
+            and len(call.args) == 2 and not call.keywords and isinstance(call.args[1], ast.List) and not call.args[1].elts):
+        return tr_dict_block(rest, with_state(env, "(setdefault %s %s)" % (pure_str(call.args[0]), cur)), ctx, d, top)
+    if (call is not None and call.func.attr == "append" and isinstance(call.func.value, ast.Subscript)
+            and isinstance(call.func.value.value, ast.Name) and call.func.value.value.id == d
+            and len(call.args) == 1 and not call.keywords and not isinstance(call.args[0], ast.Starred)):
+        k, x = pure_str(call.func.value.slice), pure_str(call.args[0])
+        v = fresh_var(env, ctx, "dct")
+        return "(%s <- dict_append %s %s %s ;; %s)" % (v, k, x, cur, tr_dict_block(rest, with_state(env, v), ctx, d, top))
+    if isinstance(s, ast.If) and not s.orelse:
+        t = s.test
+        if not (isinstance(t, ast.Compare) and len(t.ops) == 1 and isinstance(t.ops[0], ast.IsNot)
+                and isinstance(t.comparators[0], ast.Constant) and t.comparators[0].value is None
+                and isinstance(t.left, ast.Attribute) and isinstance(t.left.value, ast.Name)
+                and (env.get(t.left.value.id, (None, None))[1], t.left.attr) in NEVER_NONE
+                and ast.unparse(t.left) in env and elem_type(env[ast.unparse(t.left)][1])):
+            raise Untranslatable("test %s in a dict accumulation" % ast.unparse(t)[:60])
+        # `x.attr is not None`, the attribute a plain list in the model (NEVER_NONE): true
+        return "(if true then %s else %s)" % (tr_dict_block(list(s.body) + rest, env, ctx, d, top), tr_dict_block(rest, env, ctx, d, top))
+    if isinstance(s, ast.For) and not s.orelse and isinstance(s.target, ast.Name) and isinstance(s.iter, ast.Attribute):
+        binds, lterm, lty, _ = lift(s.iter, env, ctx["counter"])
+        if binds or elem_type(lty) is None:
+            raise Untranslatable("loop over %s in a dict accumulation" % ast.unparse(s.iter)[:60])
+        sv, x, r = fresh_var(env, ctx, "dct"), fresh_var(env, ctx), fresh_var(env, ctx, "dct")
+        env2 = with_state(bind_target(s.target, elem_type(lty), x, env), sv)
+        body = tr_dict_block(list(s.body), env2, ctx, d, False)
+        # the loop variable stays unbound after the loop (a later use of it is untranslatable)
+        return "(%s <- foldM (fun %s %s => %s) %s %s ;; %s)" % (r, sv, x, body, lterm, cur, tr_dict_block(rest, with_state(env, r), ctx, d, top))
+    raise Untranslatable("statement in a dict accumulation: " + ast.unparse(s)[:60])
 
 
 def fresh_var(env, ctx, hint="z"):
@@ -1683,9 +1761,14 @@ FUN_SITES = [
     ("Graph_rename_demes", "demes/demes.py", "Graph.rename_demes", [("self", "rec:graph"), ("names", "namemap")],
      "(self : graph) (names : namemap)", "graph", "forall names self, f_Graph_rename_demes self names = rename_demes names self",
      "rename_demes rename_core deme_rename mig_rename pulse_rename rn valid_deme_name raise_if", ["C15"]),
+    # the result is the model's ndict: the dict's items in insertion order (unique keys)
+    ("Graph_successors", "demes/demes.py", "Graph.successors", [("self", "rec:graph")], "(self : graph)", "ndict",
+     "forall self, f_Graph_successors self = Ok (successors self)", "successors", ["C14"]),
+    ("Graph_predecessors", "demes/demes.py", "Graph.predecessors", [("self", "rec:graph")], "(self : graph)", "ndict",
+     "forall self, f_Graph_predecessors self = Ok (predecessors self)", "predecessors", ["C14"]),
 ]
 # the tactic that proves a function site's tie, where it is not plain ftie
-FUN_TACTIC = {"f_Graph_rename_demes": "ftie_upd"}
+FUN_TACTIC = {"f_Graph_rename_demes": "ftie_upd", "f_Graph_successors": "ftie_dict", "f_Graph_predecessors": "ftie_dict"}
 
 
 def generate_funs():
@@ -1734,7 +1817,7 @@ def generate_funs():
 FUN_HEADER = """(* GENERATED by xlate/pyxlate.py from the current source of /repo on every run. Do not edit.
    Whole function bodies of the implementation, translated statement by statement. *)
 From Coq Require Import Bool List String Arith.
-From Demes Require Import Base.Num Base.Py Model.MDM Model.Resolve Model.SizeAt Model.ToMs Model.Close Model.InGen Model.Rename Spec.Valid Proofs.ArithSites Proofs.FunSites.
+From Demes Require Import Base.Num Base.Py Model.MDM Model.Resolve Model.SizeAt Model.ToMs Model.Close Model.InGen Model.Rename Model.Ancestry Spec.Valid Proofs.ArithSites Proofs.FunSites.
 Import ListNotations.
 Local Open Scope string_scope.
 Local Open Scope list_scope.
@@ -1818,6 +1901,27 @@ Ltac ftie_upd :=
       match goal with |- context [map ?g l] => tryif constr_eq f g then fail else change (map f l) with (map g l) end
   end;
   ftie.
+(* [ftie_dict]: accumulation into a dict of lists.  A loop threading the dict in the error monad (foldM) whose body raises
+   nothing is the model's left fold (foldM_pure); `d[k].append(x)` raises nothing where k was set by a preceding setdefault
+   (dict_append_ok; the key stays present through later setdefaults and appends), if need be as an invariant of the
+   inner loop (foldM_inv) when the setdefault precedes the loop *)
+Ltac fdict_key :=
+  cbv beta in *;
+  first [ assumption | apply mem_key_setdefault | apply mem_key_setdefault_mono; fdict_key | apply mem_key_append_to; fdict_key ].
+Ltac fdict_body :=
+  cbv beta iota; rewrite ?bind_ret;
+  lazymatch goal with
+  | |- foldM _ _ _ = Ok (fold_left _ _ _) =>
+      first [ apply foldM_pure; intros; fdict_body
+            | match goal with
+              | |- foldM _ _ (setdefault ?k _) = _ =>
+                  apply (foldM_inv (fun s => mem_key k s = true)); [ intros ? ? ?; split; [ fdict_body | fdict_key ] | fdict_key ]
+              end ]
+  | |- dict_append _ _ _ = Ok _ => apply dict_append_ok; fdict_key
+  | |- bind (dict_append ?k ?x ?d) _ = _ => rewrite (dict_append_ok k x d) by fdict_key; cbn [bind]; fdict_body
+  | |- _ => reflexivity
+  end.
+Ltac ftie_dict := intros; timeout 60 fdict_body.
 """
 
 
